@@ -394,3 +394,155 @@ Theorem c11_encoder_refuted :
             elog_ok 0 false (elog s) = false.
 Proof. eexists. split; [vm_compute; reflexivity|reflexivity]. Qed.
 
+
+(* ------------------------------------------------------------------ *)
+(* 5. queue mode with a negotiated codec: every frame after the first   *)
+(*    is encoded                                                        *)
+
+Lemma rest_encoded_snoc_enc : forall wl i, rest_encoded wl = true -> rest_encoded (wl ++ [WEnc i]) = true.
+Proof.
+  intros [|w wl] i H; [reflexivity|]. cbn [rest_encoded app] in *.
+  rewrite forallb_app, H. reflexivity.
+Qed.
+
+Lemma flush_rest : forall q e wl el e' wl' el',
+  flush e q wl el = (e', wl', el') -> rest_encoded wl = true ->
+  (e = EActive \/ (e = EPending /\ wl = [])) ->
+  rest_encoded wl' = true /\ (e' = EActive \/ (e' = EPending /\ wl' = [])).
+Proof.
+  induction q as [|i q IH]; intros e wl el e' wl' el' H Hr He; cbn [flush] in H.
+  - inv H. auto.
+  - destruct He as [->|[-> ->]].
+    + eapply IH in H; [exact H|apply rest_encoded_snoc_enc; exact Hr|left; reflexivity].
+    + eapply IH in H; [exact H|reflexivity|left; reflexivity].
+Qed.
+
+Record RestInv (s : cst) : Prop := {
+  p_start : pcC s = CStart -> enc s = ENone /\ wlog s = [] /\ wbusy s = None /\ queue s = [];
+  p_enc : pcC s <> CStart -> enc s <> ENone;
+  p_pend : enc s = EPending -> wlog s = [] /\ wbusy s = None;
+  p_raw : forall i, wbusy s = Some (i, false) -> wlog s = [];
+  p_rest : rest_encoded (wlog s) = true;
+  p_d : dbusy s = None;
+  p_gone : enc s = EGone -> writer_open (kl s) = false;
+  p_w : wbusy s <> None -> writer_open (kl s) = true
+}.
+
+Lemma rest_step : forall c s l s', cc_rwq c = false -> cc_dict c = true ->
+  RestInv s -> cstep c s l = Some s' -> RestInv s'.
+Proof.
+  intros c s l s' Hq Hdict I H.
+  destruct l; unfold cstep, write_begin, write_end in H; rewrite ?Hq, ?Hdict in H; cbreak H; inv H.
+  all: destruct I as [Ps Pe Pp Pr Prest Pd Pg Pw].
+  all: try (rewrite Pd in *; discriminate).
+  all: repeat match goal with p : (item * bool)%type |- _ => destruct p end.
+  all: constructor; cbn [wlog wbusy dbusy queue pcC kl enc] in *; auto.
+  all: try (intros; congruence).
+  all: try (intros; discriminate).
+  all: try (intros X; exfalso; apply X; reflexivity).
+  all: try (apply rest_encoded_snoc_enc; exact Prest).
+  all: try (match goal with E : wbusy _ = Some (?i, false) |- rest_encoded _ = true => rewrite (Pr i E); reflexivity end).
+  all: try (match goal with E : flush _ _ _ _ = _ |- _ =>
+              apply flush_rest in E; [|exact Prest|];
+              [ destruct E as [F1 [F2|[F2 F3]]] | ] end).
+  all: try (intros;
+            try (match goal with X : pcC _ = CStart |- _ => destruct (Ps X) as (?A & ?B & ?C & ?D) end);
+            try (match goal with X : enc _ = EPending |- _ => destruct (Pp X) as (?A & ?B) end);
+            try (match goal with X : enc _ = EGone |- _ => pose proof (Pg X) end);
+            try (match goal with X : wbusy _ = Some (?i, false) |- _ => pose proof (Pr i X) end);
+            try (assert (enc s <> ENone) by (apply Pe; congruence));
+            try (assert (writer_open (kl s) = true) by (apply Pw; congruence));
+            repeat match goal with E : kl _ = _ |- _ => rewrite E in * end; cbn [writer_open] in *;
+            repeat split; try congruence; try discriminate; auto; fail).
+  all: assert (Hne : enc s <> ENone) by
+         (apply Pe; intros X; destruct (Ps X) as (_ & _ & _ & D); congruence).
+  all: try (exfalso; apply Hne; assumption).
+  all: destruct (enc s) eqn:Ee; try congruence;
+       [ right; split; [reflexivity|apply Pp; reflexivity]
+       | left; reflexivity
+       | exfalso; specialize (Pg eq_refl); rewrite Heqc0 in Pg; discriminate ].
+Qed.
+
+Lemma rest_init : RestInv cinit.
+Proof. constructor; cbn; auto; try discriminate; try congruence; try (intros X; exfalso; apply X; reflexivity). Qed.
+
+Theorem c11_rest_encoded : forall c ls s,
+  cc_rwq c = false -> cc_dict c = true -> crun c cinit ls = Some s -> rest_encoded (wlog s) = true.
+Proof.
+  intros c ls s Hq Hd H. apply (p_rest s). revert ls s H. apply crun_inv; [apply rest_init|].
+  intros; eapply rest_step; eauto.
+Qed.
+
+(* ------------------------------------------------------------------ *)
+(* 6. Close is called exactly once for a negotiated codec               *)
+
+Lemma count_close_app : forall a b, count_close (a ++ b) = (count_close a + count_close b)%nat.
+Proof. intros. unfold count_close. rewrite filter_app, app_length. reflexivity. Qed.
+
+Lemma flush_close : forall q e wl el e' wl' el',
+  flush e q wl el = (e', wl', el') ->
+  count_close el' = count_close el /\ (e = EGone <-> e' = EGone) /\ (e = ENone <-> e' = ENone).
+Proof.
+  induction q as [|i q IH]; intros e wl el e' wl' el' H; cbn [flush] in H.
+  - inv H. repeat split; auto.
+  - destruct e; apply IH in H; destruct H as (A & B & C).
+    + split; [exact A|]. split; [exact B|exact C].
+    + split; [exact A|]. split; split; intros X; try discriminate.
+      * apply B in X. discriminate.
+      * apply C in X. discriminate.
+    + rewrite A, count_close_app. cbn. rewrite PeanoNat.Nat.add_0_r. split; [reflexivity|]. split; [exact B|exact C].
+    + split; [exact A|]. split; [exact B|exact C].
+Qed.
+
+Definition closing (k : clo) : bool := match k with KDict | KDone => true | _ => false end.
+
+Record CloseInv (c : ccfg) (s : cst) : Prop := {
+  k_cnt : count_close (elog s) = (if egone s then 1 else 0)%nat;
+  k_gone : enc s = EGone -> closing (kl s) = true;
+  k_neg : cc_dict c = true -> pcC s <> CStart -> enc s <> ENone;
+  k_done : closing (kl s) = true -> enc s = ENone \/ enc s = EGone
+}.
+
+Lemma close_step : forall c s l s', CloseInv c s -> cstep c s l = Some s' -> CloseInv c s'.
+Proof.
+  intros c s l s' I H.
+  destruct l; unfold cstep, write_begin, write_end in H; cbreak H; inv H.
+  all: destruct I as [Kc Kg Kn Kd].
+  all: repeat match goal with p : (item * bool)%type |- _ => destruct p end.
+  all: try match goal with E : flush _ _ _ _ = _ |- _ => apply flush_close in E; destruct E as (F1 & F2 & F3) end.
+  all: constructor; unfold egone in *; cbn [wlog elog wbusy dbusy queue pcC kl enc] in *; auto.
+  all: repeat match goal with E : kl _ = _ |- _ => rewrite E in * end; cbn [closing] in *.
+  all: repeat match goal with E : enc _ = _ |- _ => rewrite E in * end.
+  all: rewrite ?count_close_app; cbn [count_close filter length]; rewrite ?PeanoNat.Nat.add_0_r.
+  all: try assumption.
+  all: try (intros; congruence).
+  all: try (intros; discriminate).
+  all: try (intros; auto; fail).
+  all: try (rewrite Kc; reflexivity).
+  all: try tauto.
+  all: try (intros X; destruct (Kd X); discriminate).
+  all: try (intros D _; apply Kn; [exact D|congruence]).
+  all: try (destruct (enc s) eqn:Ee; try exact Kc; exfalso; specialize (Kg eq_refl); discriminate).
+  (* writer close with a remaining queue *)
+  rewrite F1, Kc. destruct (enc s) eqn:Ee; destruct e; try reflexivity;
+    try (destruct F2 as [F2a F2b]; first [specialize (F2a eq_refl)|specialize (F2b eq_refl)]; discriminate).
+Qed.
+
+Lemma close_init : forall c, CloseInv c cinit.
+Proof. intros c. constructor; cbn; auto; try discriminate; try congruence. Qed.
+
+(* exactly once: never more than one Close, and one whenever a codec was installed and the
+   connection has got as far as CloseDictionaryCompression *)
+Theorem c11_close_once : forall c ls s, crun c cinit ls = Some s ->
+  (count_close (elog s) <= 1)%nat /\
+  (cc_dict c = true -> pcC s <> CStart -> closing (kl s) = true -> count_close (elog s) = 1%nat) /\
+  (closing (kl s) = false -> count_close (elog s) = 0%nat).
+Proof.
+  intros c ls s H.
+  assert (I : CloseInv c s).
+  { revert ls s H. apply crun_inv; [apply close_init|]. intros; eapply close_step; eauto. }
+  destruct I as [Kc Kg Kn Kd]. unfold egone in Kc. split; [|split].
+  - rewrite Kc. destruct (enc s); auto.
+  - intros D P K. destruct (Kd K) as [X|X]; [exfalso; exact (Kn D P X)|]. rewrite Kc, X. reflexivity.
+  - intros K. rewrite Kc. destruct (enc s) eqn:E; try reflexivity. specialize (Kg eq_refl). congruence.
+Qed.
